@@ -12,7 +12,7 @@ props = [json.loads(l) for l in open(os.path.join(ROOT, "properties.jsonl"))]
 GENERIC = ("Generated-input search (Hypothesis strategies built by construction, seeded from VERIF_SEED) against an explicit oracle, on both quoting backends; "
            "a pass is evidence over the explored cases, not a proof of absence. ")
 LEVEL_TEXTS = {
-    "C01": GENERIC + "Validity predicate (RFC 3986 character classes per component, ASCII, bytes()) over every row of the entry-point registry; the single-character table (all ASCII + ~330 code points x contexts x entries) is exhaustive.",
+    "C01": GENERIC + "Validity predicate (RFC 3986 character classes per component, ASCII, bytes()) over every row of the entry-point registry; the single-character table (all ASCII, all of Latin-1 and ~330 further code points x contexts x entries) is exhaustive.",
     "C02": GENERIC + "Token-level oracle: decoded bytes and the literal/escaped status sequence of reserved delimiters are compared between supplied and canonical text for every registry row; single characters and all 256 escape bytes are enumerated.",
     "C03": GENERIC + "Re-parse fixed point (string and all components, twice) over URLs from generated programs (constructor/build + modifier chains).",
     "C04": GENERIC + "The single-feature policy table (128 literals + 256 escapes x 6 positions x contexts) is enumerated completely; the canonical grammar is sampled.",
